@@ -19,6 +19,16 @@ FS_MUT = (r"^std::fs::(create_dir_all|create_dir|write|remove_file|remove_dir|re
 EXTRACTORS = re.compile(r"ZipArchive<R>>::extract$|extract::Extractor<'_> as read::stream::ZipStreamVisitor>::(visit_file|visit_additional_metadata)$")
 
 
+def path_arg(t):
+    """index of the path argument of a filesystem-mutating call; None for builder steps that name no path"""
+    c = t.get("callee") or ""
+    if re.search(r"^std::fs::OpenOptions::open$|^std::fs::DirBuilder::create$", c):
+        return 1
+    if re.search(r"^std::fs::OpenOptions::|^std::fs::DirBuilder::|DirBuilderExt|^std::fs::File::options$|^std::fs::File::(set_len|set_permissions)$", c):
+        return None
+    return 0
+
+
 def who_rules(facts, rep):
     rule = "C07-WHO"
     ok = True
@@ -93,7 +103,10 @@ def prov_rules(facts, rep):
         for bi, t in f.calls():
             if not callee_matches(t, FS_MUT):
                 continue
-            p = norm(ex.operand(t["args"][0], (bi, None)))
+            pa = path_arg(t)
+            if pa is None or pa >= len(t["args"]):
+                continue
+            p = norm(ex.operand(t["args"][pa], (bi, None)))
             good, entry = _validated_join(p, base_pred)
             # only joins / parent-of-join / references may sit between the call and the join
             wrappers = [x[1] for x in _walk_outside_entry(p) if x[0] == "call" and not re.search(r"Path::join$|Path::parent$|Option::<T>::ok_or$|enclosed_name$|AsRef|Deref|Path::new$", x[1])]
@@ -162,6 +175,30 @@ def mode_rules(facts, rep):
                 cp = calls_matching(f, r"^std::io::copy$")
                 good = bool(cp) and bi in f.reach_from(cp[0][0])
                 ok &= rep.check(good, rule, "mode-after-content", where(f, t["span"]), "permissions applied after the content is written", "permissions are applied before the content is written")
+    # every extracted *file* whose entry records a Unix mode gets exactly that mode by an explicit chmod after the content was
+    # written (a mode passed at open time is masked by the umask and ignored for a pre-existing file)
+    za = [f for f in facts.fns if re.search(r"ZipArchive<R>>::extract$", f.path)]
+    if za:
+        f = za[0]
+        ps = paths(f, max_loop=1)
+        bad = 0
+        nfile = 0
+        for p in ps:
+            cp = [pos for e_, pos in zip(p["effects"], p["epos"]) if re.search(r"^std::io::copy$", e_[1])]
+            if not cp:
+                continue
+            has_mode = [v for (a, v), pos in zip(p["decisions"], p["dpos"]) if a != "#iter" and re.search(r"^discr\(ZipFile::unix_mode\(", a) and pos > cp[0]]
+            sp = [pos for e_, pos in zip(p["effects"], p["epos"]) if re.search(r"^std::fs::set_permissions$", e_[1]) and pos > cp[0]]
+            o = outcome(p)
+            if o[0] != "Ok":
+                continue        # an I/O error in between ends the extraction
+            nfile += 1
+            if has_mode == [1] and len(sp) != 1:
+                bad += 1
+            if not has_mode:
+                bad += 1        # the recorded mode is not even consulted after writing a file
+        ok &= rep.check(nfile >= 1 and bad == 0, rule, "file-gets-mode", where(f, f.span), "after a file's content is written, unix_mode() is consulted and Some(mode) => set_permissions",
+                        "%d of %d file-extracting paths do not apply the entry's recorded Unix mode with set_permissions after writing" % (bad, nfile))
     rep.floor(rule, 2)
     return ok
 
@@ -174,13 +211,25 @@ def content_rules(facts, rep):
             continue
         ex = Ex(f)
         cp = calls_matching(f, r"^std::io::copy$")
-        cr = calls_matching(f, r"^std::fs::File::create$")
+        cr = calls_matching(f, r"^std::fs::File::create$|^std::fs::OpenOptions::open$")
         good = len(cp) == 1 and len(cr) == 1
         if good:
             src = norm(ex.operand(cp[0][1]["args"][0], (cp[0][0], None)))
             dst = norm(ex.operand(cp[0][1]["args"][1], (cp[0][0], None)))
-            good = any(x[0] == "call" and x[1].endswith("File::create") for x in walk(dst)) and \
+            good = any(x[0] == "call" and re.search(r"File::create$|OpenOptions::open$", x[1]) for x in walk(dst)) and \
                 (any(x[0] == "call" and x[1].endswith("by_index") for x in walk(src)) or src[0] == "arg")
+        if good and cr[0][1]["callee"].endswith("OpenOptions::open"):
+            # a hand-assembled open must be what File::create is: write + create + truncate, no append -- otherwise the tail of a
+            # longer pre-existing file survives and the extracted file is not the entry's content
+            def flag(nm):
+                cs = calls_matching(f, r"^std::fs::OpenOptions::%s$" % nm)
+                return [norm(ex.operand(t2["args"][1], (b2, None))) for b2, t2 in cs if f.dominates(b2, cr[0][0])]
+            tr, wr, ce, ap = flag("truncate"), flag("write"), flag("create"), calls_matching(f, r"^std::fs::OpenOptions::(append|create_new)$")
+            T = ("const", "bool", 1)
+            okopen = tr == [T] and wr == [T] and ce == [T] and not ap
+            ok &= rep.check(okopen, rule, "truncating-open@%s" % f.path.split("::")[-1], where(f, cr[0][1]["span"]), "OpenOptions: write(true).create(true).truncate(true)",
+                            "the output file is opened without truncation (write=%s create=%s truncate=%s): bytes of a longer pre-existing file survive "
+                            "behind the extracted content" % ([show(x) for x in wr], [show(x) for x in ce], [show(x) for x in tr]))
         ok &= rep.check(good, rule, "copy@%s" % f.path.split("::")[-1], where(f, f.span), "content copied from the entry into the created file",
                         "extractor no longer copies the entry into the file it created")
         # directory vs file by trailing '/'
